@@ -425,6 +425,12 @@ class Scn:
             ino.sb = data
         return self._fs("fs_write", dict(path=path, data=data), go)
 
+    def fs_truncate(self, path, n):
+        def go():
+            ino = self.env.vfs.lookup(SBytes.of(path))
+            ino.sb = sb.slice_(ino.sb, 0, n, self.w)
+        return self._fs("fs_truncate", dict(path=path, len=n), go)
+
     def fs_append(self, path, data):
         data = SBytes.of(data)
 
@@ -445,12 +451,23 @@ class Scn:
     def fs_symlink(self, target, path):
         def go():
             from .models.fs import comp_key, Inode, FsErr
-            self.env.vfs.mkdir_p(SBytes.of(path.rsplit("/", 1)[0]))
             p, n, ino = self.env.vfs.walk(SBytes.of(path), follow_last=False)
             if ino is not None:
                 raise FsErr("AlreadyExists")
             p.children[comp_key(n)] = (n, Inode("symlink", target=SBytes.of(target)))
         return self._fs("fs_symlink", dict(path=path, target=target), go)
+
+    def fs_read(self, path):
+        """Observe a file's bytes (the caller looking at an extraction destination)."""
+        from .models.fs import FsErr
+        try:
+            ino = self.env.vfs.lookup(SBytes.of(path))
+            if ino.kind != "file":
+                raise FsErr("IsADirectory")
+            out = Outcome("ok", BytesRef(ino.sb))
+        except FsErr as e:
+            out = Outcome("err", IoError(e.kind))
+        return self._record("fs_read", "sync", dict(path=path), out)
 
     def fs_mkdir_p(self, path):
         return self._fs("fs_mkdir_p", dict(path=path), lambda: self.env.vfs.mkdir_p(SBytes.of(path)))
@@ -497,6 +514,15 @@ class Concretiser:
 
     def blob(self, b):
         if id(b) not in self.blob_bytes:
+            # a blob the model makes equal to an earlier one gets the same bytes
+            for other in self.scn.blobs.values():
+                if other is b or id(other) not in self.blob_bytes:
+                    continue
+                k = tuple(sorted((id(b), id(other))))
+                v = sb._same_vars.get(k)
+                if v is not None and z3.is_true(self.m.eval(v, model_completion=True)):
+                    self.blob_bytes[id(b)] = self.blob_bytes[id(other)]
+                    return self.blob_bytes[id(b)]
             n = self.ev(b.len)
             if n > (64 << 20):
                 raise Unreplayable("blob %s of %d bytes" % (b.name, n))
@@ -585,6 +611,8 @@ class Concretiser:
         return out
 
     def path(self, p):
+        if isinstance(p, SBytes):
+            p = self.bytes_of(p).decode("utf-8", "surrogateescape")
         if isinstance(p, str):
             if p.startswith(ROOT):
                 return "$ROOT" + p[len(ROOT):]
